@@ -1,0 +1,11 @@
+//go:build verif
+
+package types
+
+// Contracts for the deductive verifier in /verif (govc). Comment-only; compiled only with -tags verif.
+
+//@ spec func inStrList(s []string, x string) bool = exists j int :: 0 <= j && j < len(s) && s[j] == x
+
+//@ contract ContainsMsgType
+//@   pure
+//@   ensures result == ((len(allowMsgs) == 1 && allowMsgs[0] == AllowAllHostMsgs) || inStrList(allowMsgs, sdk.MsgTypeURL(msg)))
